@@ -647,13 +647,26 @@ CHECK_DEADLOCK FALSE
         found.append(dict(sig=sig, what=what, replay=dict(engine="urg", case=dict(e["dec"], has=e["has"], backend=e["backend"], driver=e["driver"]))))
     kinds = collections.Counter((e["kind"], e["urg"]) for e in evs)
     distinct = len({(e["dec"]["td"], e["dec"]["tv"], e["dec"]["age"], e["dec"]["since"], e["has"]) for e in evs})
+    # the arithmetic facts for ALL naturals: TLAPS proof of spec/UrgencyFacts.tla (never decides the exit code:
+    # a prover that is unavailable or times out is recorded, not treated as a verdict)
+    proof = dict(attempted=False)
+    try:
+        pd = os.path.join(wd, "proof")
+        os.makedirs(pd)
+        shutil.copy(os.path.join(SPEC, "UrgencyFacts.tla"), pd)
+        pp = sh(["timeout", "300", "tlapm", "--threads", "4", "UrgencyFacts.tla"], cwd=pd, timeout=400)
+        mm = re.search(r"All (\d+) obligations? proved", pp.stdout + pp.stderr)
+        proof = dict(attempted=True, obligations_proved=int(mm.group(1)) if mm else 0, all_proved=bool(mm),
+                     theorems=["HighGeLow", "Monotone", "SaturationIsExact", "NegativeIsNone"], tail=(pp.stdout + pp.stderr)[-300:] if not mm else "")
+    except Exception as ex_:
+        proof = dict(attempted=True, all_proved=False, error=str(ex_)[:200])
     # the counter / urgency facet on real histories: SEQ runs judged with the C12 predicates
     rc_seq = engine_seq("C12", tier, evidence=False)
     coverage = dict(states=ust["distinct"], transitions=ust["generated"], traces_validated_against_impl=ncase,
                     samples=[evs[i]["dec"] | {"urg": evs[i]["urg"], "kind": evs[i]["kind"]} for i in (0, len(evs) // 2, len(evs) - 1)],
                     grid_cases=ncase, grid_distinct=distinct, skipped_unrepresentable_age=nskip,
                     outcomes={f"{k[0]}/{k[1]}": n for k, n in kinds.items()},
-                    seq_part=rc_seq["coverage"],
+                    seq_part=rc_seq["coverage"], tlaps_proof=proof,
                     rule="MC_Urgency: every (targets, age, since, has) combination is an initial state (thresholds, monotonicity, BigNat vs native). "
                          "Grid: targets incl. 0, 1, odd, u32/i64 extremes x measures around each threshold; one real add_version each, "
                          "expected urgency computed by TLC with BigNat. Counter: C12_Counter/C12_Step on every step of the SEQ runs.")
@@ -1658,7 +1671,7 @@ def engine_bin(pid, tier):
             jobs.append({"id": f"bin{k}", "run": k + 1, "backend": "sqlite", "driver": "bin", "dir": data_dir, "cfg": {"days": 2, "versions": 2},
                          "nclients": 3, "client_uuids": uu, "allow": None, "first_free": 1, "start_may_fail": special == "busyport",
                          "bin": {"path": server, "listen": listen, "args": args, "env": env, "cwd": cwd, "clock_file": clock},
-                         "steps": bin_steps(2, 2, None), "kind": "binary"})
+                         "steps": (bin_steps(2, 2, None) if special != "busyport" else bin_steps(2, 2, None)[:8]), "kind": "binary"})
         plan = {"threads": 1, "needs_clock": True, "jobs": jobs}
         t1 = time.time()
         summ, files = run_harness_sharded(binary, "seq", plan, wd, nproc=min(8, len(jobs)), env={"TCSS_SOCK_TIMEOUT": "4"})
